@@ -78,7 +78,11 @@ def opPfScope (args : List SExp) : Option OpResult := do
         -- a path at which the hierarchy exposes no resource is answered 404 (an empty scope is no multi-status)
         let impl := if notFound || (GoWebdav.Impl.Propfind.scope h path level d).isEmpty then "404" else if form = "noform" then "400" else pr (GoWebdav.Impl.Propfind.scope h path level d)
         let want := if notFound || (GoWebdav.Spec.Propfind.scope h path level d).isEmpty then "404" else if form = "noform" then "400" else pr (GoWebdav.Spec.Propfind.scope h path level d)
-        pure ⟨impl, mustEqual "C11" (s!"{server}-scope-{match level with | .root => "root" | .principal => "principal" | .homeSet => "homeset" | .collection => "collection" | .object => "object" | .deeper => "deeper"}") want⟩
+        let cls := s!"{server}-scope-{match level with | .root => "root" | .principal => "principal" | .homeSet => "homeset" | .collection => "collection" | .object => "object" | .deeper => "deeper"}"
+        -- C12: a principal or home-set path other than the current user's exposes nothing of the current user's
+        let foreign := (level == .principal && path != h.principal) || (level == .homeSet && path != h.homeSet)
+        pure ⟨impl, fun got => mustEqual "C11" cls want got ++
+          (if foreign && got.startsWith "207" && got != "207 ( )" then [("C12", s!"{server}-foreign-path-exposes-resources")] else [])⟩
   | _ => none
 
 /-- `pf.prin <principal> ( ( cal|card <path> ) … ) => ( ( cal <href> ) ( card <href> ) ( cup <href> ) )`: the principal
